@@ -45,7 +45,7 @@ def build(family, report):
     def G(name, text, entry, enforce, fns, tags, timeout=600, note="", expect=()):
         g = Group("%s.%s" % (fam, name), text, entry, enforce=enforce, solver="cadical", defines=["SCALAR_FLOAT"], timeout=timeout,
                   functions=fns, note=note, expect_classes=list(expect) or ["assigns"])
-        out.append((g, set(tags)))
+        out.append((g, set(("C02" if (gen and t == "C01") else t) for t in tags)))
 
     # ---- factorization (shared by both families; emitted once under the 'herm' family, Arnoldi variant under 'gen')
     t_eb, s_eb = skel.f_expand_basis(rep)
@@ -72,10 +72,13 @@ def build(family, report):
     t_na, s_na = skel.f_nev_adjusted(gen, rep)
     t_nc, s_nc = skel.f_num_converged(gen, rep, defs)
     if gen:
-        raise NotImplementedError
-    t_rr, s_rr = skel.f_retrieve_ritzpair_herm(rep)
-    t_sr, s_sr = skel.f_sort_ritzpair_herm(rep)
-    t_rs, s_rs = skel.f_restart_herm(rep, s_rr.post)
+        t_rr, s_rr = skel.f_retrieve_ritzpair_gen(rep)
+        t_sr, s_sr = skel.f_sort_ritzpair_gen(rep)
+        t_rs, s_rs = skel.f_restart_gen(rep, s_rr.post)
+    else:
+        t_rr, s_rr = skel.f_retrieve_ritzpair_herm(rep)
+        t_sr, s_sr = skel.f_sort_ritzpair_herm(rep)
+        t_rs, s_rs = skel.f_restart_herm(rep, s_rr.post)
     t_cp, s_cp = skel.f_compute(gen, rep, s_sr.post)
     t_in, s_in = skel.f_init(gen, rep)
     t_ct, s_ct = skel.f_ctor(gen, rep)
@@ -83,18 +86,24 @@ def build(family, report):
     t_ex, s_ex = skel.f_eigenvectors(gen, rep)
     ordf = t_rr[:t_rr.index("#line")]
     ordf2 = t_sr[:t_sr.index("#line")]
-    sbase = base + skel.eps23_doc() + "".join(defs) + helpers + skel.stub_argsort() + skel.DECOMP_STUBS
+    if gen:
+        sbase = base + skel.eps23_doc() + "".join(defs) + helpers + skel.NANEQ_DEF + skel.GEN_DEFS + skel.QR_STUBS_GEN + skel.stub_sort_complex() + skel.DECOMP_STUBS
+    else:
+        sbase = base + skel.eps23_doc() + "".join(defs) + helpers + skel.stub_argsort() + skel.DECOMP_STUBS
     A = skel.ALLOC_STATE
     G("nev_adjusted", sbase + t_na + s_na.harness("h", A + "  Index nconv = nondet_Index();", "S, nconv"), "h", "nev_adjusted",
       [hdr + ":nev_adjusted"], ["C04", "C07", "C13"], expect=["loop_invariant_step"])
     G("num_converged", sbase + t_nc + s_nc.harness("h", A + "  Scalar tol = nondet_Scalar();", "S, tol"), "h", "num_converged",
-      [hdr + ":num_converged"], ["C01", "C02", "C05", "C13"] if gen else ["C01", "C05", "C13"])
+      [hdr + ":num_converged"], ["C01", "C05", "C13"])
     G("retrieve_ritzpair", sbase + t_rr + s_rr.harness("h", A + "  SortRule selection = nondet_int();", "S, selection"), "h", "retrieve_ritzpair",
       [hdr + ":retrieve_ritzpair"], ["C01", "C04", "C05", "C13", "C14"], expect=["loop_invariant_step", "Eigen index assertion"],
       note="argsort and the dense eigen-decomposition replaced by their contracts")
     G("sort_ritzpair", sbase + t_sr + s_sr.harness("h", A + "  SortRule sort_rule = nondet_int();", "S, sort_rule"), "h", "sort_ritzpair",
       [hdr + ":sort_ritzpair"], ["C01", "C05", "C12", "C13", "C18"], expect=["loop_invariant_step"])
-    stubs_r = skel.compress_H_spec(1, "compress_H_tridiag").stub() + s_cv.stub() + s_ff.stub() + s_rr.stub()
+    if gen:
+        stubs_r = skel.compress_H_spec(2, "compress_H_ds").stub() + skel.compress_H_spec(1, "compress_H_hb").stub() + s_cv.stub() + s_ff.stub() + s_rr.stub()
+    else:
+        stubs_r = skel.compress_H_spec(1, "compress_H_tridiag").stub() + s_cv.stub() + s_ff.stub() + s_rr.stub()
     G("restart", sbase + ordf + stubs_r + t_rs + s_rs.harness("h", A + "  Index k = nondet_Index(); SortRule selection = nondet_int();", "S, k, selection"),
       "h", "restart", [hdr + ":restart"], ["C04", "C05", "C07", "C13", "C14"], expect=["loop_invariant_step"],
       note="callees compress_H, compress_V, factorize_from, retrieve_ritzpair replaced by their contracts")
